@@ -1068,9 +1068,7 @@ class Emit:
             p.skip_param_attrs()
             rt = p.ty()
             fn_t = None
-            if isinstance(rt, TPtr) and isinstance(rt.t, TFn):  # explicit fn ptr type (varargs)
-                fn_t = rt.t; rt = fn_t.ret
-            elif isinstance(rt, TFn):
+            if isinstance(rt, TFn):      # explicit function type (varargs callee); a TPtr(TFn) here is a function-pointer RETURN type
                 fn_t = rt; rt = fn_t.ret
             k, callee = p.next()
             p.expect('(')
